@@ -13,7 +13,8 @@
 
     request   (`FileSession.__init__`, `acquire_lock`, `Session.load/_load`, handler, `Session.save/_save`,
                `release_lock`)
-      init    `os.path.exists(path)`         (absent -> the request regenerates a private id: `gone`)
+      init    `os.path.exists(path)`         (absent -> the request generates a private id …
+      gex     `os.path.exists(<new path>)`   … checks that it is unused and leaves the race: `gone`)
       acq     `while not checker.expired(): FileLock(path).acquire(timeout=0.1)` — Timeout, sleep, retry
               is a disabled (stutter) step; `LockChecker.expired()` raising `LockTimeout` is the
               nondeterministic event `expire i` (only with `lock_timeout`): `locked` stays False, `failed`
@@ -51,7 +52,7 @@ inductive FileC
   | absent | empty | data (v exp : Nat)
   deriving DecidableEq, Repr
 
-inductive Pc | init | acq | openr | load | trunc | dump | rel | done | gone | failed
+inductive Pc | init | gex | acq | openr | load | trunc | dump | rel | done | gone | failed
   deriving DecidableEq, Repr
 
 inductive SPc | list | acq | openr | load | unlink | rel | crashed
@@ -69,6 +70,7 @@ structure Sweeper where
   snow : Nat := 0       -- `now` read at the start of clean_up
   seen : Nat := 0
   err : Bool := false   -- an exception is propagating through the `finally: release`
+  sweeps : Nat := 0     -- ghost: number of clean_up invocations started
   deriving DecidableEq, Repr
 
 def timeout : Nat := 2
@@ -106,7 +108,8 @@ def swInCS (p : SPc) : Bool :=
 def stepReq (s : St) (i : Nat) : St :=
   let t := s.thr i
   match t.pc with
-  | .init => setThr s i { t with pc := if s.file = .absent then .gone else .acq }
+  | .init => setThr s i { t with pc := if s.file = .absent then .gex else .acq }
+  | .gex => setThr s i { t with pc := .gone }
   | .acq =>
     match s.flock with
     | none => setThr { s with flock := some (.req i) } i { t with pc := .openr }
@@ -132,8 +135,8 @@ def stepSweep (s : St) : St :=
   let w := s.sw
   match w.pc with
   | .list =>
-    if s.file = .absent then setSw s { w with snow := s.now, err := false }
-    else setSw s { w with pc := .acq, snow := s.now, err := false }
+    if s.file = .absent then setSw s { w with snow := s.now, err := false, sweeps := w.sweeps + 1 }
+    else setSw s { w with pc := .acq, snow := s.now, err := false, sweeps := w.sweeps + 1 }
   | .acq =>
     match s.flock with
     | none => setSw { s with flock := some .sweep } { w with pc := .openr }
@@ -182,5 +185,66 @@ def enabled (s : St) (a : Actor) : Bool :=
     | _ => true
   | .sweep => if s.sw.pc = .acq then s.flock.isNone else s.sw.pc != .crashed
   | _ => true
+
+/-! ### observation, final observation, duplicate key, labels (admission of recorded traces) -/
+
+def actorCode : Option Actor → Nat
+  | none => 0
+  | some (.req i) => 1 + i
+  | some .sweep => 1001
+  | some (.tick _) => 999
+  | some (.expire _) => 998
+
+def pcCode : Pc → Nat
+  | .init => 0 | .gex => 10 | .acq => 1 | .openr => 2 | .load => 3 | .trunc => 4 | .dump => 5 | .rel => 6
+  | .done => 7 | .gone => 8 | .failed => 9
+
+def spcCode : SPc → Nat
+  | .list => 0 | .acq => 1 | .openr => 2 | .load => 3 | .unlink => 4 | .rel => 5 | .crashed => 6
+
+/-- 0 running / blocked, 1 done, 2 gone, 3 failed (LockTimeout) -/
+def statusCode : Pc → Nat
+  | .done => 1 | .gone => 2 | .failed => 3 | _ => 0
+
+/-- who holds the lock; the file (0 absent | 1 empty | 2, counter, expiry); lost flag; status of every
+    request; crashed flag and number of started sweeps of the sweeper -/
+def obs (n : Nat) (s : St) : List Nat :=
+  [actorCode s.flock] ++
+  (match s.file with | .absent => [0] | .empty => [1] | .data v e => [2, v, e]) ++
+  [if s.lost then 1 else 0] ++
+  (List.range n).map (fun i => statusCode (s.thr i).pc) ++
+  [if s.sw.pc = .crashed then 1 else 0, s.sw.sweeps]
+
+/-- which requests are blocked for ever: unfinished, not enabled, and the lock is not held by a
+    sweep that can go on -/
+def fin (n : Nat) (s : St) : List Nat :=
+  let sweepMoves := s.flock = some .sweep && enabled s .sweep
+  (List.range n).map fun i =>
+    if statusCode (s.thr i).pc = 0 && !enabled s (.req i) && !sweepMoves then 1 else 0
+
+def key (n : Nat) (s : St) : List Nat :=
+  obs n s ++ [s.now, s.version] ++
+  (List.range n).flatMap (fun i =>
+    let t := s.thr i
+    if statusCode t.pc != 0 then [pcCode t.pc] else [pcCode t.pc, t.tmp, t.texp, t.seen]) ++
+  [spcCode s.sw.pc, s.sw.snow, s.sw.seen, if s.sw.err then 1 else 0]
+
+/-- `(0,0)` the session's data file, `(1,0)` its lock, `(2,0)` the directory listing -/
+def lab (s : St) (a : Actor) : Option (Nat × Nat) :=
+  match a with
+  | .req i =>
+    match (s.thr i).pc with
+    | .init | .gex | .openr | .load | .trunc | .dump => some (0, 0)
+    | .acq | .rel => some (1, 0)
+    | _ => none
+  | .sweep =>
+    match s.sw.pc with
+    | .list => some (2, 0)
+    | .acq | .rel => some (1, 0)
+    | .openr | .load | .unlink => some (0, 0)
+    | .crashed => none
+  | _ => none
+
+def isLocal (_ : St) (_ : Actor) : Bool := false
 
 end CpModel.SessionFile
